@@ -205,7 +205,7 @@ Hypothesis Hx : 0 <= x.
 Hypothesis Hr : 0 <= rmin /\ rmin <= rmax /\ rmax <= Rm.
 Hypothesis Fin : forall r, rmin < r < rmax -> F r = pevalR c r.
 Hypothesis Flo : forall r, 0 <= r < rmin -> F r = 0.
-Hypothesis Fhi : forall r, rmax < r -> F r = 0.
+Hypothesis Fhi : forall r, rmax < r < Rm -> F r = 0.
 
 Lemma zero_RInt : forall a b, a <= b ->
   (forall y, a < y < b -> F (rr x y) = 0) -> is_RInt (fun y => F (rr x y)) a b 0.
@@ -235,7 +235,9 @@ Proof.
       + apply rr_lt; lra.
     - apply seg_RInt; auto. }
   assert (I3 : is_RInt (fun y => F (rr x y)) (ylim rmax x) (ylim Rm x) 0).
-  { apply zero_RInt; auto. intros y Hy. apply Fhi. apply rr_gt; lra. }
+  { apply zero_RInt; auto. intros y Hy. apply Fhi. split.
+    - apply rr_gt; lra.
+    - apply rr_lt; lra. }
   pose proof (is_RInt_Chasles _ _ _ _ _ _ I1 I2) as I12.
   pose proof (is_RInt_Chasles _ _ _ _ _ _ I12 I3) as I.
   match type of I with is_RInt _ _ _ ?v =>
@@ -269,7 +271,8 @@ Theorem abel_pt_Abel : forall F c sc x rmin rmax Rm,
   abel_pt c sc x rmin rmax = sc * Abel F Rm x.
 Proof.
   intros. unfold abel_pt. rewrite abel_sum_PA by lra.
-  rewrite (los_Abel F c rmin rmax Rm x); auto; lra.
+  rewrite (los_Abel F c rmin rmax Rm x); auto; try lra.
+  intros r [Hr _]; auto.
 Qed.
 
 (* beyond r_max the transform vanishes *)
